@@ -6,6 +6,7 @@ import (
 	"io"
 	"os"
 	"path/filepath"
+	"runtime/debug"
 	"sort"
 	"strings"
 	"time"
@@ -148,7 +149,7 @@ type c17Letter struct {
 
 var c17Letters = []c17Letter{
 	{"Put(a)", "put", "a", 0}, {"Put(b)", "put", "b", 0}, {"Delete(a)", "del", "a", 0}, {"Compact", "compact", "", 0}, {"Reopen", "reopen", "", 0},
-	{"Backup", "backup", "", 0}, {"Torn(3 bytes of a record)", "torn", "", 0}, {"Torn(record with bad CRC)", "torn", "", 1}, {"Torn(600 zero bytes)", "torn", "", 2}, {"BigPut(c)", "bigput", "c", 0},
+	{"Backup", "backup", "", 0}, {"Torn(3 bytes of a record)", "torn", "", 0}, {"Torn(record with bad CRC)", "torn", "", 1}, {"Torn(600 zero bytes)", "torn", "", 2}, {"BigPut(c)", "bigput", "c", 0}, {"HugePut(b)", "hugeput", "b", 0},
 }
 
 func tornTail(i int, keyA []byte) []byte {
@@ -171,11 +172,15 @@ func runC17Word(t *fsTarget, cfg explore.Config, keys map[string][]byte, word []
 			trace = append(trace, fmt.Sprintf("PANIC: %v", r))
 		}
 	}()
+	debug.SetPanicOnFault(true)
 	explore.PinSeed(0)
 	db, err := pogreb.Open(t.dir, cfg.Options(t.fsys))
 	if err != nil {
 		return []string{"Open: " + err.Error()}
 	}
+	// an iterator that lives across the steps: one Next per observation (what it has buffered must stay valid
+	// through compaction, growth and so on, identically on every file system)
+	longIt := db.Items()
 	closed := false
 	defer func() {
 		if !closed {
@@ -219,6 +224,13 @@ func runC17Word(t *fsTarget, cfg explore.Config, keys map[string][]byte, word []
 		}
 		sort.Strings(pairs)
 		o = append(o, "scan="+strings.Join(pairs, ","))
+		if k, v, err := longIt.Next(); err == nil {
+			o = append(o, fmt.Sprintf("long-lived iterator: %x=%x", k, sha256.Sum256(v)))
+		} else if err == pogreb.ErrIterationDone {
+			o = append(o, "long-lived iterator: done")
+		} else {
+			o = append(o, "long-lived iterator: ERR")
+		}
 		sz, err := db.FileSize()
 		o = append(o, fmt.Sprintf("FileSize=%d/%s", sz, es(err)))
 		o = append(o, "Sync="+es(db.Sync()))
@@ -243,6 +255,14 @@ func runC17Word(t *fsTarget, cfg explore.Config, keys map[string][]byte, word []
 				big[j] = byte(j*7 + nval)
 			}
 			step += " -> " + es(db.Put(keys[l.Key], big))
+		case "hugeput":
+			// larger than any plausible initial mapping window below the real one: the mapping has to grow by more than a doubling
+			nval++
+			huge := make([]byte, 3<<20+17)
+			for j := 0; j < len(huge); j += 509 {
+				huge[j] = byte(j>>9 + nval)
+			}
+			step += " -> " + es(db.Put(keys[l.Key], huge))
 		case "del":
 			step += " -> " + es(db.Delete(keys[l.Key]))
 		case "compact":
@@ -286,6 +306,7 @@ func runC17Word(t *fsTarget, cfg explore.Config, keys map[string][]byte, word []
 				return
 			}
 			closed = false
+			longIt = db.Items()
 			segs(step + " after Open")
 		}
 		observe(step)
@@ -320,6 +341,9 @@ func runC17(c *explore.Ctx) {
 	n := 0
 	for _, cfg := range cfgs {
 		letters := c17Letters
+		if cfg.Name == "BIG2" {
+			letters = c17Letters[:10] // the 3 MiB record is exercised under the default segment size only
+		}
 		if cfg.Name == "ROLL" {
 			letters = c17Letters[:9] // the big record does not fit a ROLL segment on any file system (same error everywhere, nothing to compare)
 		}
@@ -367,9 +391,9 @@ func runC17(c *explore.Ctx) {
 							continue
 						}
 						c.Violation(explore.Violation{
-							Key:  fmt.Sprintf("diff fs=%s cfg=%s word=%s", kind, cfg.Name, strings.Join(names, " ")),
-							What: fmt.Sprintf("program [%s] under %s behaves differently on fs=%s than on simfs: %s", strings.Join(names, ", "), cfg.Name, kind, d),
-							Size: depth,
+							Key:    fmt.Sprintf("diff fs=%s cfg=%s word=%s", kind, cfg.Name, strings.Join(names, " ")),
+							What:   fmt.Sprintf("program [%s] under %s behaves differently on fs=%s than on simfs: %s", strings.Join(names, ", "), cfg.Name, kind, d),
+							Size:   depth,
 							Replay: map[string]interface{}{"kind": "diff17", "cfg": cfg.Name, "word": names, "fs": kind, "observed": d},
 						})
 						return false
